@@ -1,5 +1,167 @@
-"""engine W runner (CrossHair over the real class glue with the environment shimmed)."""
-def obligations(name, tier):
-    return [], {}
+"""Engine W runner: CrossHair (symbolic execution of Python with z3) over harness modules in checks/w_*.py that load
+the REAL sketchnu sources under the shimmed environment (engine/shim/shims.py).  One CrossHair process per condition.
+A condition passes only on 'Confirmed over all paths'; a counterexample is re-run against the real library by the
+harness module's real_<name>() function before it is reported."""
+import ast
+import importlib
+import os
+import re
+import subprocess
+import sys
+import time
+
+ROOT = os.path.dirname(os.path.dirname(os.path.abspath(__file__)))
+PY = os.path.join(ROOT, ".venv", "bin", "python")
+
+# check id -> list of (harness module, [function names] or None = every check_* function)
+HARNESSES = {
+    "c15": [("w_c15", None)],
+    "c12": [("w_c12", None)],
+    "c10": [("w_c10", None)],
+    "c13": [("w_c13", None)],
+    "c16": [("w_c16", None)],
+    "c08": [("w_c08", None)],
+    "c19": [("w_c19", None)],
+    "c01": [("w_c01", None)],
+    "c17": [("w_c17", None)],
+    "c06": [("w_c06", None)],
+}
+
+
+def harness_functions(mod):
+    path = os.path.join(ROOT, "checks", mod + ".py")
+    if not os.path.exists(path):
+        return path, []
+    tree = ast.parse(open(path).read())
+    out = []
+    for n in tree.body:
+        if isinstance(n, ast.FunctionDef) and n.name.startswith("check_"):
+            doc = ast.get_docstring(n) or ""
+            if "post:" in doc:
+                out.append((n.name, n.body[0].lineno if n.body else n.lineno + 1, doc))
+    return path, out
+
+
+_CALL_RE = re.compile(r"when calling (\w+)\((.*)\)(?: \(which returns (.*)\))?\s*$")
+
+
+def parse_args(argstr):
+    """'1, 2, x=3' -> ([1,2], {'x':3}) using the python parser"""
+    try:
+        node = ast.parse(f"f({argstr})", mode="eval").body
+        args = [ast.literal_eval(a) for a in node.args]
+        kwargs = {k.arg: ast.literal_eval(k.value) for k in node.keywords}
+        return args, kwargs
+    except Exception:
+        return None, None
+
+
+def run_condition(mod, fname, line, timeout_s, extra_env=None):
+    path = os.path.join(ROOT, "checks", mod + ".py")
+    env = dict(os.environ)
+    env["PYTHONPATH"] = ROOT + os.pathsep + env.get("PYTHONPATH", "")
+    env["W_MODE"] = "shim"
+    env["PYTHONHASHSEED"] = "0"
+    if extra_env:
+        env.update(extra_env)
+    cmd = [PY, "-m", "crosshair", "check", "--report_all", "--per_condition_timeout", str(timeout_s), f"{path}:{line}"]
+    t = time.time()
+    try:
+        p = subprocess.run(cmd, cwd=ROOT, env=env, capture_output=True, text=True, timeout=timeout_s * 3 + 120)
+        out, err, rc = p.stdout, p.stderr, p.returncode
+    except subprocess.TimeoutExpired as e:
+        out, err, rc = (e.stdout or ""), "hard timeout", 2
+    dt = time.time() - t
+    res = {"status": "unknown", "wall_s": round(dt, 2), "raw": (out or "")[-1500:], "stderr": (err or "")[-800:], "rc": rc}
+    lines = [ln for ln in (out or "").splitlines() if ln.strip()]
+    confirmed = any("Confirmed over all paths" in ln for ln in lines)
+    errors = [ln for ln in lines if ": error:" in ln]
+    if errors:
+        e0 = errors[0].rstrip()
+        if " (which returns " in e0:
+            e0 = e0[:e0.rindex(" (which returns ")]
+        m = _CALL_RE.search(e0)
+        res["status"] = "cex"
+        res["message"] = errors[0].split(": error:", 1)[1].strip()[:600]
+        if m:
+            a, kw = parse_args(m.group(2))
+            res["args"], res["kwargs"] = a, kw
+        return res
+    if confirmed and not any("Not confirmed" in ln or "Unable to meet precondition" in ln for ln in lines):
+        res["status"] = "proved"
+        return res
+    res["note"] = "; ".join(ln.split(": info:", 1)[-1].strip() for ln in lines)[:300] or (err or "")[-300:]
+    return res
+
+
+def ob_condition(mod, fname, line, timeout_s):
+    """obligation body (runs in a forked child of the main runner): CrossHair, then replay on the real library"""
+    r = run_condition(mod, fname, line, timeout_s)
+    stats = {"queries": {"unsat": 1 if r["status"] == "proved" else 0, "sat": 1 if r["status"] == "cex" else 0, "unknown": 1 if r["status"] == "unknown" else 0},
+             "solver_s": r["wall_s"], "digests": [f"{mod}.{fname}"],
+             "samples": [{"obligation": f"crosshair check {mod}.py:{fname}", "result": r["status"], "solver_s": r["wall_s"], "crosshair_output": r["raw"][-300:]}]}
+    base = {"stats": stats, "funcs": [f"checks/{mod}.py:{fname} (CrossHair over the real methods it calls)"]}
+    if r["status"] == "proved":
+        return dict(base, status="proved")
+    if r["status"] == "unknown":
+        return dict(base, status="unknown", note=f"CrossHair: {r.get('note')} {r.get('stderr', '')[-200:]}")
+    cex = {"kind": "w", "module": mod, "function": fname, "args": r.get("args"), "kwargs": r.get("kwargs"), "message": r.get("message")}
+    rp = replay_generic(cex)
+    return dict(base, status="cex", cex=cex, replay=rp, finding_key=f"{mod}.{fname}" + (":" + str(rp.get("finding_key")) if rp.get("finding_key") else ""))
+
+
 def replay_generic(cex):
-    return {"reproduced": False, "how": "unknown cex kind"}
+    """run the harness module in REAL mode (real numpy/numba/sketchnu): real_<function>(*args) -> (ok, detail)"""
+    if cex.get("kind") != "w" or cex.get("args") is None:
+        return {"reproduced": False, "how": "counterexample arguments could not be parsed: " + str(cex.get("message"))[:200]}
+    os.environ["W_MODE"] = "real"
+    name = "checks." + cex["module"]
+    if name in sys.modules:
+        del sys.modules[name]
+    mod = importlib.import_module(name)
+    fn = getattr(mod, "real_" + cex["function"][len("check_"):], None)
+    if fn is None:
+        return {"reproduced": False, "how": f"no real_{cex['function'][6:]} replay function in {cex['module']}"}
+    try:
+        out = fn(*cex["args"], **(cex.get("kwargs") or {}))
+    except Exception as e:  # a crash of the public API on the concrete input is itself an observation
+        import traceback
+        return {"reproduced": False, "how": f"replay raised {type(e).__name__}: {e}", "trace": traceback.format_exc()[-600:]}
+    ok, detail = out[0], out[1]
+    r = {"reproduced": not ok, "how": f"checks/{cex['module']}.py:real_{cex['function'][6:]}{tuple(cex['args'])} against the real library", "observed": str(detail)[:600]}
+    if len(out) > 2 and out[2]:
+        r["finding_key"] = out[2]
+    return r
+
+
+def obligations(name, tier):
+    from engine import common
+    tmo = 90 if tier == "quick" else 600
+    obs = []
+    meta = {"harnesses": [], "stubs": [], "assumptions": [], "outside": [], "conditions": 0}
+    for mod, only in HARNESSES.get(name, []):
+        path, fns = harness_functions(mod)
+        if not fns:
+            continue
+        try:
+            src = open(path).read()
+            tree = ast.parse(src)
+            for n in tree.body:
+                if isinstance(n, ast.Assign) and len(n.targets) == 1 and isinstance(n.targets[0], ast.Name) and n.targets[0].id in ("W_STUBS", "W_ASSUMPTIONS", "W_OUTSIDE"):
+                    meta[{"W_STUBS": "stubs", "W_ASSUMPTIONS": "assumptions", "W_OUTSIDE": "outside"}[n.targets[0].id]] += ast.literal_eval(n.value)
+        except Exception:
+            pass
+        for fname, line, doc in fns:
+            if only and fname not in only:
+                continue
+            if tier == "quick" and "tier: thorough" in doc:
+                continue
+            t = tmo
+            mm = re.search(r"timeout: (\d+)", doc)
+            if mm:
+                t = int(mm.group(1)) * (1 if tier == "quick" else 4)
+            obs.append(common.Ob(f"W {mod}.{fname}", ob_condition, (mod, fname, line, t), hard_s=t * 3 + 200,
+                                 bounds={"crosshair_condition": fname, "per_condition_timeout_s": t, "pre": [ln.strip() for ln in doc.splitlines() if ln.strip().startswith("pre:")]}))
+            meta["conditions"] += 1
+        meta["harnesses"].append(mod)
+    return obs, meta
